@@ -28,8 +28,13 @@ Listed(files, d)  == {k \in 1..Len(files) : Within(files[k], d)}
 \* splitting, so a component that is empty or contains a slash does not
 \* survive the round trip.  Such a file table is not admissible: the torrent
 \* must be refused when its metadata is read (tor/torfile.go).
-Ambiguous == {"", "a/b"}          \* the members of that class used by the model
+Ambiguous == {"", "a/b", ".", ".."}   \* the members of that class used by the model ("." and ".." are removed by URL normalisation)
 Admissible(files) == \A k \in 1..Len(files) : \A i \in 1..Len(files[k]) : files[k][i] \notin Ambiguous
+
+\* A path is shadowed when one of its proper prefixes is itself a file: a tree
+\* of directory entries (FUSE) can show that name either as the file or as
+\* the directory, not both, so below it nothing is required of such a tree.
+Shadowed(files, p) == \E k \in 1..Len(files) : Len(files[k]) < Len(p) /\ IsPrefix(files[k], p)
 
 Sane(files) ==
   /\ \A k \in 1..Len(files) : Resolve(files, files[k]) # 0 /\ files[Resolve(files, files[k])] = files[k]
